@@ -977,7 +977,8 @@ uint8 ICACHE_FLASH_ATTR supla_esp_mqtt_parser_set_on(
   char *tn = (char *)topic_name;
 
   if (memcmp(tn, supla_esp_mqtt_vars->prefix,
-             supla_esp_mqtt_vars->prefix_len) == 0) {
+             supla_esp_mqtt_vars->prefix_len) == 0 &&
+      tn[supla_esp_mqtt_vars->prefix_len] == '/') {
     tn += supla_esp_mqtt_vars->prefix_len + 1;
     topic_name_size -= supla_esp_mqtt_vars->prefix_len + 1;
   } else {
@@ -1897,7 +1898,8 @@ uint8 ICACHE_FLASH_ATTR supla_esp_mqtt_parser_rs_fb_action(
   char *tn = (char *)topic_name;
 
   if (memcmp(tn, supla_esp_mqtt_vars->prefix,
-             supla_esp_mqtt_vars->prefix_len) == 0) {
+             supla_esp_mqtt_vars->prefix_len) == 0 &&
+      tn[supla_esp_mqtt_vars->prefix_len] == '/') {
     tn += supla_esp_mqtt_vars->prefix_len + 1;
     topic_name_size -= supla_esp_mqtt_vars->prefix_len + 1;
   } else {
@@ -2070,7 +2072,8 @@ uint8 ICACHE_FLASH_ATTR supla_esp_mqtt_parser_set_brightness(
   char *tn = (char *)topic_name;
 
   if (memcmp(tn, supla_esp_mqtt_vars->prefix,
-             supla_esp_mqtt_vars->prefix_len) == 0) {
+             supla_esp_mqtt_vars->prefix_len) == 0 &&
+      tn[supla_esp_mqtt_vars->prefix_len] == '/') {
     tn += supla_esp_mqtt_vars->prefix_len + 1;
     topic_name_size -= supla_esp_mqtt_vars->prefix_len + 1;
   } else {
@@ -2545,7 +2548,8 @@ uint8 ICACHE_FLASH_ATTR supla_esp_mqtt_parser_set_color_brightness(
   char *tn = (char *)topic_name;
 
   if (memcmp(tn, supla_esp_mqtt_vars->prefix,
-             supla_esp_mqtt_vars->prefix_len) == 0) {
+             supla_esp_mqtt_vars->prefix_len) == 0 &&
+      tn[supla_esp_mqtt_vars->prefix_len] == '/') {
     tn += supla_esp_mqtt_vars->prefix_len + 1;
     topic_name_size -= supla_esp_mqtt_vars->prefix_len + 1;
   } else {
@@ -2618,7 +2622,8 @@ uint8 ICACHE_FLASH_ATTR supla_esp_mqtt_parser_set_color(
   char *tn = (char *)topic_name;
 
   if (memcmp(tn, supla_esp_mqtt_vars->prefix,
-             supla_esp_mqtt_vars->prefix_len) == 0) {
+             supla_esp_mqtt_vars->prefix_len) == 0 &&
+      tn[supla_esp_mqtt_vars->prefix_len] == '/') {
     tn += supla_esp_mqtt_vars->prefix_len + 1;
     topic_name_size -= supla_esp_mqtt_vars->prefix_len + 1;
   } else {
